@@ -625,6 +625,21 @@ def origins(prog, body, operand_or_place, max_depth=40, through_calls=True, _def
         elif k == "const":
             if "fn" in op:
                 out.add(("fnitem", norm(op["fn"]), None))
+            elif "promoted" in op:
+                # a promoted constant (e.g. `&"stdgates.inc"`, `&Type::Gate(3, 1)`): its origins are the constants it is built from
+                try:
+                    pj = body.j["promoted"][op["promoted"]]
+                    for bl_ in pj["blocks"]:
+                        for s_ in bl_["stmts"]:
+                            if s_["k"] == "assign":
+                                rv_ = s_["rv"]
+                                if rv_["k"] == "agg" and "adt" in rv_:
+                                    out.add(("agg", norm(rv_["adt"]), rv_["vname"], None))
+                                for o_ in _operands_of_rv(rv_):
+                                    if o_.get("k") == "const" and "promoted" not in o_:
+                                        out.add(("const", o_["ty"], o_.get("bits", o_.get("str", "?"))))
+                except Exception:
+                    out.add(("const", op["ty"], "?promoted"))
             else:
                 rep = op.get("bits", op.get("str", op.get("item", op.get("dbg", "zst" if op.get("zst") else "?"))))
                 out.add(("const", op["ty"], rep))
